@@ -448,6 +448,8 @@ def _stats_of(st, stats):
         stats["twins-behind-equal-wrappers"] += 1
     if len(st["out"]) >= 2 or st["kind"] != "done":
         stats["nontrivial"] += 1
+    if not st["mok"]:
+        stats["model-violates-R_C11"] += 1
 
 
 def _class_succ(heap, i):
@@ -839,6 +841,7 @@ def run(pid, tier, replay_file=None):
         realisations={k[12:]: v for k, v in stats.items() if k.startswith("realisation:")},
         random_outcomes={k[7:]: v for k, v in stats.items() if k.startswith("random:")},
         random_accepted_by_R_C11=accepted_random,
+        model_states_violating_R_C11=stats["model-violates-R_C11"],
         drift=dict(drift),
         drift_events_total=sum(1 for c in cases if c[3] == "drift"),
         drift_events_adjudicated=sum(1 for eid, _ in events if index[eid][3] == "drift"),
